@@ -330,8 +330,9 @@ def finish(run, level, rule, evaluations, distinct_nontrivial, exhaustive, extra
         print("VIOLATION property=%s replay=%s" % (run.pid, v["replay"]))
         print("  what: %s" % v["what"])
         rc = EXIT_VIOLATION
-    states = sum(r["distinct"] for r in run.tlc_runs)
-    trans = sum(r["generated"] for r in run.tlc_runs)
+    # only TLC runs of THIS check run are counted; tables served from the gen/ cache are listed (cached: true) but not summed
+    states = sum(r["distinct"] for r in run.tlc_runs if not r.get("cached"))
+    trans = sum(r["generated"] for r in run.tlc_runs if not r.get("cached"))
     cov = {
         "evaluations": int(evaluations),
         "distinct_nontrivial": int(distinct_nontrivial),
